@@ -131,13 +131,14 @@ func init() {
 		x.Raw("  explicitUnlocks : Nat      -- non-deferred Unlock/RUnlock calls anywhere in the body")
 		x.Raw("  lockCalls : Nat            -- Lock/RLock calls anywhere in the body")
 		x.Raw("  condWait : Bool            -- body calls <recv>.cond.Wait()")
+		x.Raw("  broadcasts : Nat           -- calls of <recv>.cond.Broadcast() in the body")
 		x.Raw("deriving Repr, DecidableEq")
 		var items []string
 		for _, lt := range lockTargets {
 			name := lt.dir + "." + lt.recv + "." + lt.method
 			fd := x.Func(lt.dir, lt.recv, lt.method)
 			if fd == nil || fd.Body == nil || fd.Recv == nil || len(fd.Recv.List[0].Names) != 1 {
-				items = append(items, fmt.Sprintf("  ⟨%s, false, [], none, false, 0, 0, false⟩", LeanStr(name)))
+				items = append(items, fmt.Sprintf("  ⟨%s, false, [], none, false, 0, 0, false, 0⟩", LeanStr(name)))
 				continue
 			}
 			rv := fd.Recv.List[0].Names[0].Name
@@ -155,7 +156,7 @@ func init() {
 					}
 				}
 			}
-			explicit, locks := 0, 0
+			explicit, locks, broadcasts := 0, 0, 0
 			condWait := false
 			inDefer := map[*ast.CallExpr]bool{}
 			ast.Inspect(fd.Body, func(n ast.Node) bool {
@@ -176,6 +177,11 @@ func init() {
 							condWait = true
 						}
 					}
+					if s, ok := t.Fun.(*ast.SelectorExpr); ok && s.Sel.Name == "Broadcast" {
+						if in, ok := s.X.(*ast.SelectorExpr); ok && in.Sel.Name == "cond" {
+							broadcasts++
+						}
+					}
 				}
 				return true
 			})
@@ -183,8 +189,8 @@ func init() {
 			if lockAt >= 0 {
 				la = fmt.Sprintf("some %d", lockAt)
 			}
-			items = append(items, fmt.Sprintf("  ⟨%s, true, [%s], %s, %v, %d, %d, %v⟩", LeanStr(name),
-				strings.Join(kinds, ", "), la, deferNext, explicit, locks, condWait))
+			items = append(items, fmt.Sprintf("  ⟨%s, true, [%s], %s, %v, %d, %d, %v, %d⟩", LeanStr(name),
+				strings.Join(kinds, ", "), la, deferNext, explicit, locks, condWait, broadcasts))
 		}
 		x.Raw("def methods : List Method := [\n" + strings.Join(items, ",\n") + "\n]")
 	})
